@@ -255,6 +255,10 @@ const ownDictGet = <T>(dict: Record<string, T>, key: unknown): T | undefined => 
   return Object.prototype.hasOwnProperty.call(dict, key) ? dict[String(key)] : undefined;
 };
 
+// dictionaries keyed by type names must not inherit from Object.prototype: a type may be called
+// `toString` or `constructor`
+const emptyDict = <T>(): Record<string, T> => Object.create(null);
+
 // JSON.stringify throws on bigint and on cyclic values, both of which can be the rejected input
 const safeStringify = (it: unknown): string => {
   try {
@@ -431,14 +435,12 @@ export class SchemaPrintingContext {
   constructor(options: SchemaPrintingContextOptions) {
     this.refPathTemplate = options.refPathTemplate;
     this.definitionContainerKey = options.definitionContainerKey;
-    this.collectedDefinitions = {};
-    this.inProgressDefinitions = {};
-    this.namedTypeSchemaOverrides = Object.fromEntries(
-      Object.entries(options.namedTypeSchemaOverrides ?? {}).map(([name, parser]) => [
-        name,
-        (parser as ParserFromRuntype)._runtype,
-      ]),
-    );
+    this.collectedDefinitions = emptyDict();
+    this.inProgressDefinitions = emptyDict();
+    this.namedTypeSchemaOverrides = emptyDict();
+    for (const [name, parser] of Object.entries(options.namedTypeSchemaOverrides ?? {})) {
+      this.namedTypeSchemaOverrides[name] = (parser as ParserFromRuntype)._runtype;
+    }
   }
 
   get refTemplate(): string {
@@ -1794,7 +1796,7 @@ export class AnyOfDiscriminatedRuntype extends BaseRuntype {
     });
   }
   private getSchemaVariantRefs(ctx: SchemaContext): Array<{ key: string; ref: string }> {
-    const unionHash = this.hash({ seen: {} });
+    const unionHash = this.hash({ seen: emptyDict() });
     return Object.entries(this.schemaMapping).map(([key, schema]) => ({
       key,
       ref: this.ensureSchemaVariantRef(schema, key, unionHash, ctx),
@@ -2502,7 +2504,7 @@ class ParserFromRuntype implements BeffParser<any> {
   schema(): JSONSchema7 {
     const ctx = {
       path: [],
-      seen: {},
+      seen: emptyDict<boolean>(),
       mode: "flat" as const,
     };
     return this._runtype.schema(ctx);
@@ -2510,7 +2512,7 @@ class ParserFromRuntype implements BeffParser<any> {
   schemaWithContext(schemaPrintingContext: SchemaPrintingContext): JSONSchema7 {
     const ctx = {
       path: [],
-      seen: {},
+      seen: emptyDict<boolean>(),
       mode: "contextual" as const,
       printingContext: schemaPrintingContext,
     };
@@ -2519,8 +2521,8 @@ class ParserFromRuntype implements BeffParser<any> {
   describe(): string {
     const ctx: DescribeContext = {
       activeRefs: new Set(),
-      definitions: {},
-      refCounts: {},
+      definitions: emptyDict(),
+      refCounts: emptyDict(),
       visitedRefs: new Set(),
     };
     collectDescribeRefs(this._runtype, ctx);
@@ -2539,7 +2541,7 @@ class ParserFromRuntype implements BeffParser<any> {
   }
   hash(): number {
     const ctx = {
-      seen: {},
+      seen: emptyDict<boolean>(),
     };
     return this._runtype.hash(ctx);
   }
